@@ -64,11 +64,96 @@ def runRace (line : String) : String :=
     | _, _, _, _ => "bad-op"
   | _ => "bad-op"
 
+
+/-! stream `c20_global`, second case form: (gseq OP…) — a sequential script through the public front doors of the
+    process-global slots (one harness process per case).
+      OP ::= (init I F) | (tryinit I F) | (initguard I F T) | dropguard | (initint I F) | (tryinitint I F)
+           | (emit E LM) | (span E LM) | (rtemit E LM) | (direct E LM) | (emitint E LM) | (flush T) | obs
+      F  ::= all | none | (minlvl LEVEL) | (idge N)        LM ::= plain | debug | info | warn | error
+    → one token per op, then recv=((cfg id lvl amb clocked|bare)…) flushes=((cfg t)…) -/
+
+def rank? : Sexp → Option Nat
+  | .atom "debug" => some 0
+  | .atom "info" => some 1
+  | .atom "warn" => some 2
+  | .atom "error" => some 3
+  | _ => none
+
+def lm? : Sexp → Option (Option Nat)
+  | .atom "plain" => some none
+  | s => (rank? s).map some
+
+def fspec? : Sexp → Option FSpec
+  | .atom "all" => some .all
+  | .atom "none" => some .none
+  | .list [.atom "minlvl", l] => (rank? l).map FSpec.minLvl
+  | .list [.atom "idge", n] => n.nat?.map FSpec.idGe
+  | _ => none
+
+def gevt? (e l : Sexp) : Option GEvt := do
+  let id ← e.nat?
+  if id ≥ 1000000 then none
+  let lvl ← lm? l
+  pure ⟨id, lvl⟩
+
+inductive GKind where
+  | init | tryInit | initGuard | dropGuard | initInt | tryInitInt | sent | flush | obs
+
+def glabel? : Sexp → Option (GLabel × GKind)
+  | .list [.atom "init", i, f] => do pure (.init (← i.nat?) (← fspec? f), .init)
+  | .list [.atom "tryinit", i, f] => do pure (.tryInit (← i.nat?) (← fspec? f), .tryInit)
+  | .list [.atom "initguard", i, f, t] => do pure (.initGuard (← i.nat?) (← fspec? f) (← t.nat?), .initGuard)
+  | .atom "dropguard" => some (.dropGuard, .dropGuard)
+  | .list [.atom "initint", i, f] => do pure (.initInternal (← i.nat?) (← fspec? f), .initInt)
+  | .list [.atom "tryinitint", i, f] => do pure (.tryInitInternal (← i.nat?) (← fspec? f), .tryInitInt)
+  | .list [.atom "emit", e, l] => do pure (.emit (← gevt? e l), .sent)
+  | .list [.atom "span", e, l] => do pure (.span (← gevt? e l), .sent)
+  | .list [.atom "rtemit", e, l] => do pure (.emit (← gevt? e l), .sent)
+  | .list [.atom "direct", e, l] => do pure (.direct (← gevt? e l), .sent)
+  | .list [.atom "emitint", e, l] => do pure (.emitInternal (← gevt? e l), .sent)
+  | .list [.atom "flush", t] => do pure (.flush (← t.nat?), .flush)
+  | .atom "obs" => some (.observe, .obs)
+  | _ => none
+
+def showG : GKind → GOut → String
+  | .init, .inited p => s!"init={if p then "panic" else "ok"}"
+  | .initGuard, .inited p => s!"initguard={if p then "panic" else "ok"}"
+  | .initInt, .inited p => s!"initint={if p then "panic" else "ok"}"
+  | .tryInit, .tried b => s!"tryinit={b}"
+  | .tryInitInt, .tried b => s!"tryinitint={b}"
+  | _, .dropped => "dropguard"
+  | _, .sent none => "to=none"
+  | _, .sent (some w) => s!"to={w}"
+  | _, .flushed b => s!"flush={b}"
+  | _, .comps none => "comp=empty"
+  | _, .comps (some w) => s!"comp=({w},{w},{w},{w},{w})"
+  | _, _ => "?"
+
+def rankName : Option Nat → String
+  | none => "none"
+  | some 0 => "debug"
+  | some 1 => "info"
+  | some 2 => "warn"
+  | some _ => "error"
+
+def runGseq (ops : List Sexp) : String :=
+  match ops.mapM glabel? with
+  | none => "bad-op"
+  | some ls =>
+    let (s, outs) := grun g0 (ls.map Prod.fst)
+    let toks := (ls.map Prod.snd).zip outs |>.map fun (k, o) => showG k o
+    let recv := s.delivered.reverse.map fun d =>
+      s!"({d.cfg} {d.evt.id} {rankName d.evt.lvl} {match d.amb with | some a => toString a | none => "none"} {if d.clocked then "clocked" else "bare"})"
+    let fl := s.flushes.reverse.map fun (c, t) => s!"({c} {t})"
+    let sig := s!"gseq,shared={s.shared.slot.isSome},internal={s.internal.slot.isSome},dlv={min s.delivered.length 3},fl={min s.flushes.length 2}"
+    s!"{" ".intercalate toks} recv=({" ".intercalate recv}) flushes=({" ".intercalate fl})\t{sig}"
+
 /-- stream `c20_global` : (global shared-first|internal-first N) — N threads race to initialise the process-global
     shared slot and N the internal slot, in the given order. Each slot is its own instance of the slot machine,
     so `at_most_one_winner` / `losers_never_used` give one winner per slot whatever happened to the other. -/
 def runGlobal (line : String) : String :=
   match Sexp.parse line with
+  | some (.list (.atom "gseq" :: ops)) => runGseq ops
   | some (.list [.atom "global", .atom order, n]) =>
     match n.nat? with
     | some n =>
